@@ -39,6 +39,29 @@ def dc_replace(interp, obj, **changes):
     return new_obj(obj.cls, attrs, frozen=cur().heap[obj.sid].meta.get("frozen", False))
 
 
+def pd_read_csv(interp, path, sep=None, skiprows=None, nrows=None, **kw):
+    """ASSUMED contract of pandas.read_csv(path, sep=r"\\s+", skiprows=a, nrows=b) on a whitespace separated text without blank
+    or comment lines in the range: the column names are the words of line a (zero-based) of the file, the rows are the b lines
+    a+1 .. a+b.  The frame is represented by exactly these data: (path, header line a, first row a+1, number of rows b)."""
+    from pyvc.interp import new_obj
+    from pyvc.lib import _arr
+    if kw or sep != r"\s+":
+        raise EngineError("pd.read_csv with options other than sep=r'\\s+', skiprows, nrows")
+
+    def scal(v):
+        v = sv.norm(v)
+        if isinstance(v, A.Arr) and v.shape == ():
+            v = v.get(())
+        if not sv.is_scalar(v) or v is None:
+            raise EngineError("pd.read_csv: skiprows / nrows must be integers")
+        return v
+    a, b = scal(skiprows), scal(nrows)
+    cur_ = __import__("pyvc.state", fromlist=["cur"]).cur()
+    cur_.require(sv.and_(sv.cmp(">=", a, 0), sv.cmp(">=", b, 0)), "read_csv-nonnegative-skiprows-nrows")
+    return new_obj(None, dict(kind="csv-frame", path=path, header_line=a, first_row=A.simp(sv.add(a, 1)), nrows=b))
+
+
 def register(lib):
+    lib.mods.setdefault("pandas", {}).setdefault("read_csv", LibFunc("pd.read_csv", pd_read_csv))
     lib.np.setdefault("diag", LibFunc("np.diag", np_diag))
     lib.mods.setdefault("dataclasses", {}).setdefault("replace", LibFunc("dataclasses.replace", dc_replace))
